@@ -115,9 +115,11 @@ class Cons:
 
     def norm(self, e: Lin) -> Lin:
         for _ in range(8):
-            hit = [s for s in e.t if s in self.sub]
+            hit = [s for s in e.t if s in self.sub or (s in self.iv and self.iv[s][0] == self.iv[s][1])]
             if not hit:
                 return e
+            e = Lin(e.c + sum(v * self.iv[s][0] for s, v in e.t.items() if s not in self.sub and s in self.iv and self.iv[s][0] == self.iv[s][1]),
+                    {s: v for s, v in e.t.items() if s in self.sub or not (s in self.iv and self.iv[s][0] == self.iv[s][1])})
             out = Lin(e.c)
             for s, v in e.t.items():
                 out = out + (self.sub[s].mul(v) if s in self.sub else Lin(0, {s: v}))
@@ -208,8 +210,14 @@ class Cons:
             for s, v in sorted(e.t.items()):
                 if v in (1, -1) and s not in self.sub:
                     rest = Lin(e.c, {k: w for k, w in e.t.items() if k != s})
+                    a, b = self.interval(s)
+                    self.iv.pop(s, None)
                     self.sub[s] = rest.mul(-1 if v == 1 else 1)
-                    return True
+                    # the eliminated symbol's range now constrains the expression that replaces it
+                    okk = self.assume(self.sub[s] - a, ">=", True)
+                    if b != INF:
+                        okk = okk and self.assume(self.sub[s] - b, "<=", True)
+                    return okk
         self.facts[(e.key(), op)] = True
         return True
 
@@ -464,6 +472,16 @@ class SerEval:
                 return Lin(v.value())
             if v.tail is not None:
                 raise Unsupported("arithmetic on an unbounded integer")
+            if v.bits and all(isinstance(b, Src) and b.kind == "f" and str(b.name).startswith("#") and b.idx == i and b.name == v.bits[0].name for i, b in enumerate(v.bits)):
+                sym = v.bits[0].name[1:]
+                lo_, hi_ = run.cons.interval(sym)
+                if hi_ != INF and int(hi_).bit_length() <= len(v.bits):
+                    return Lin(0, {sym: 1})  # the octets of a length written by the encoder: the length itself
+            k = 0
+            while k < len(v.bits) and v.bits[k] == 0:
+                k += 1
+            if k:
+                return self.to_lin(BV(v.bits[k:]), run).mul(1 << k)
             key = "val:" + repr(v)
             run.valsym[key] = v
             run.cons.hi_default[key] = (1 << len(v.bits)) - 1
@@ -556,6 +574,14 @@ class SerEval:
         n = self.length(b, run)
         lo = Lin(0) if lo is None else run.cons.norm(lo)
         hi = n if hi is None else run.cons.norm(hi)
+        if lo.is_const() and lo.c < 0:  # Python: a negative bound counts from the end (clamped at 0)
+            lo = run.cons.norm(n + lo.c)
+            if self.test(lo, "<", run):
+                lo = Lin(0)
+        if hi.is_const() and hi.c < 0:
+            hi = run.cons.norm(n + hi.c)
+            if self.test(hi, "<", run):
+                hi = Lin(0)
         # Python clamps: hi = min(hi, n); lo = min(lo, n)
         if self.test(hi - n, ">", run):
             hi = n
@@ -574,7 +600,12 @@ class SerEval:
                 out.append(p)
             else:
                 a = p.lo if self.test(lo - off, "<=", run) else run.cons.norm(p.lo + (lo - off))
-                e = p.hi if self.test(hi - pend, ">=", run) else run.cons.norm(p.lo + (hi - off))
+                if run.cons.decide(hi - pend, ">=") is True:
+                    e = p.hi
+                elif run.cons.decide(hi - pend, "<=") is True:
+                    e = run.cons.norm(p.lo + (hi - off))
+                else:
+                    e = p.hi if self.test(hi - pend, ">=", run) else run.cons.norm(p.lo + (hi - off))
                 out.append(Blob(p.origin, run.cons.norm(a), run.cons.norm(e)))
             off = pend
         return self.norm_bytes(Bytes(tuple(out)), run)
@@ -677,6 +708,10 @@ class SerEval:
             z = start + (nbits - len(v.bits))
             run.zero_from[name] = min(run.zero_from.get(name, INF), z)
             run.nonneg.add(name)
+            if str(name).startswith("#") and start == 0 and not v.bits:
+                # an integer symbol (a length) forced into nbits: its range is now bounded
+                if not run.cons.assume(Lin(0, {name[1:]: 1}) - ((1 << nbits) - 1), "<=", True):
+                    raise AbstractRaise("struct.error", "length does not fit")
             return v.take(nbits)
         hi_bits = [v.bit(i) for i in range(nbits, max(len(v.bits), nbits))]
         for i, hb in enumerate(hi_bits):
@@ -774,6 +809,8 @@ class SerEval:
                 return EnumV(ci.ref, bv)
             w = bv.width()
             total = w != INF and all(x in members for x in range(1 << int(w)))
+            if (ci.ref, repr(bv)) in run.__dict__.get("known_members", set()):
+                total = True  # the very bits of a field assumed to hold a member of this enum
             if not total:
                 if run.choose(2, f"{name} member?") == 1:
                     raise AbstractRaise("ValueError", f"not a valid {name}")
@@ -983,7 +1020,10 @@ class SerEval:
         if isinstance(op, ast.Add):
             if isinstance(a, (BV, EnumV)) or isinstance(b, (BV, EnumV)):
                 if not isinstance(a, Lin) and not isinstance(b, Lin):
-                    r = self.to_bv(a, run).add(self.to_bv(b, run))
+                    x, y = self.to_bv(a, run), self.to_bv(b, run)
+                    r = x.add(y)
+                    if (r.tail == TOP or TOP in r.bits) and x.tail is None and y.tail is None and TOP not in x.bits and TOP not in y.bits:
+                        return run.cons.norm(self.to_lin(x, run) + self.to_lin(y, run))  # carries: arithmetic, not bit packing
                     return r
             return run.cons.norm(self.to_lin(a, run) + self.to_lin(b, run))
         if isinstance(op, ast.Sub):
@@ -1094,6 +1134,16 @@ class SerEval:
             return dec
         return self.test(self.to_lin(x, run) - k, sym, run)
 
+    def refresh(self, v: Any, run: Run) -> Any:
+        """a value computed from an unbounded field before a guard bounded the field: cut the tail at the bound."""
+        if isinstance(v, BV) and v.tail is not None and v.tail != TOP:
+            name, start = v.tail[1], v.tail[2]
+            lo, hi = run.field_range.get(name, (-INF, INF))
+            if lo >= 0 and hi != INF:
+                w = int(hi).bit_length()
+                return BV(v.bits + tuple(Src("f", name, i) for i in range(start, w)))
+        return v
+
     def field_value(self, name: str, run: Run) -> BV:
         """`self.<int field>` on the writer side: bounded by the guards seen so far."""
         lo, hi = run.field_range.get(name, (-INF, INF))
@@ -1115,7 +1165,7 @@ class SerEval:
                 v = env[e.id]
                 if isinstance(v, _FieldRef):
                     return self.field_value(v.name, run)
-                return v
+                return self.refresh(v, run)
             v = self.repo.fold(e, env["#mod"], None)
             if v is not NOFOLD:
                 return self.lift(v)
